@@ -83,7 +83,15 @@ def r6_2_manager(ctx, prog):
     seen = {}
     for pa in paths:
         latest = pa.choice(r"^variant\(m\.latest\)$")
-        ge = pa.choice(r"^ret:ge@")
+        # the deadline test, however it is spelled (instant >= deadline, instant < deadline, deadline > instant, ..):
+        # ge = 0 when the path established deadline > instant (early), 1 when it established deadline <= instant (due)
+        from .codec_rules import order_facts
+        facts = order_facts(pa)
+        ge = None
+        dl_facts = [f for f in facts if same(f[0], deadline) and f[1] == "top:instant"]
+        if dl_facts:
+            ge = 0 if dl_facts[0][2] else 1
+        slot_facts = [f for f in facts if f not in dl_facts[:1]]
         r = C.expr_of(pa, pa.ret)
         w = {}
         for x in pa.writes:
@@ -104,9 +112,8 @@ def r6_2_manager(ctx, prog):
         elif ge == 0:
             key = "early"
             rem = ("Instant::sub", deadline, "top:instant")
-            gec = pa.calls_to(r"Instant as std::cmp::PartialOrd>::ge$")
             ok = not calc and r == ("Option::Some", rem) and w == {"last_rto": rem, "latest": ("Option::Some", "top:instant")} \
-                and len(gec) == 1 and same(C.expr_of(pa, gec[0][2]), ("top:instant", deadline))
+                and len(facts) == 1
             why = "-> %s, calculator calls %d" % (show(r)[:100], len(calc))
         else:
             # late / on time: a chain deadline + t1 + ... + tk, returned as chain - instant
@@ -123,8 +130,9 @@ def r6_2_manager(ctx, prog):
                 elif ok:
                     ok = "RtoCalculator::next_rto" in repr(v[1]) or "widened" in repr(v[1])
                 ok = ok and w.get("last_rto") == v and w.get("latest") == ("Option::Some", "top:instant")
-                gts = pa.calls_to(r"Instant as std::cmp::PartialOrd>::gt$")
-                ok = ok and len(gts) == k and all(C.expr_of(pa, g[2])[1] == "top:instant" for g in gts)
+                # one test `chain > instant` per consumed slot: false for all but the last
+                ok = ok and ge == 1 and len(slot_facts) == k and all(f[1] == "top:instant" and "Instant::add" in repr(f[0]) for f in slot_facts) \
+                    and [f[2] for f in slot_facts] == [False] * (k - 1) + [True]
                 why = "deadline + %d slot(s) - now: %s" % (k, show(v)[:120])
             else:
                 ok = r == "Option::None" and w.get("latest") == "Option::None" and "last_rto" not in w and len(calc) >= 1
